@@ -133,6 +133,8 @@ def install():
     def unget(self, char):
         if char is not EOF and self.chunkOffset == 0:
             PROBES["unget_at_chunk_start"] += 1
+            if char == "\n":
+                PROBES["unget_newline_at_chunk_start"] += 1
         return orig_unget(self, char)
 
     def characterErrorsUCS4(self, data):
